@@ -277,7 +277,9 @@ class ArgsFormatBuilder(object):
         arguments = self._arguments.copy()
 
         if include_base and self._base_format:
-            arguments.update(self._base_format.get_arguments())
+            base_arguments = self._base_format.get_arguments()
+            base_arguments.update(arguments)
+            arguments = base_arguments
 
         return arguments
 
